@@ -78,6 +78,48 @@ func c04(c *Ctx) {
 	R.Sample(map[string]any{"go_serializeBody": tbl})
 	R.Floor("C04.layout-go", len(evs), 8)
 
+	// ---- C04.reads/own-payload: the body fields that feed the digest are owned by the VAA. A byte-slice
+	// field of a VAA built by vaa.Unmarshal never shares storage with the decoder's
+	// input: the value stored is not a sub-slice of a parameter (the digest of a decoded message must not
+	// change when the caller reuses its receive buffer)
+	npl := 0
+	payloadF := must(p.FieldOf(pkgVAA, "VAA", "Payload"), "vaa.VAA.Payload")
+	for _, st := range storesToField(p, payloadF) {
+		// only the wire decoder: constructors such as CreateGovernanceVAA take the payload they are given
+		if top(st.Fn) != must(p.Func(pkgVAA, "Unmarshal"), "vaa.Unmarshal") {
+			continue
+		}
+		npl++
+		alias := ""
+		seen := map[ssa.Value]bool{}
+		var walk func(v ssa.Value)
+		walk = func(v ssa.Value) {
+			if v == nil || seen[v] {
+				return
+			}
+			seen[v] = true
+			switch x := v.(type) {
+			case *ssa.Slice:
+				walk(x.X)
+			case *ssa.Phi:
+				for _, e := range x.Edges {
+					walk(e)
+				}
+			case *ssa.ChangeType:
+				walk(x.X)
+			case *ssa.Convert:
+				walk(x.X)
+			case *ssa.Parameter:
+				if _, isSl := x.Type().Underlying().(*types.Slice); isSl {
+					alias = x.Name()
+				}
+			}
+		}
+		walk(st.Instr.(*ssa.Store).Val)
+		R.Check("C04.reads", R.Key("C04.reads", shortFn(st.Fn), "store:Payload-owned"), c.sitePos(p, st), "the payload of a VAA decoded by vaa.Unmarshal does not share storage with the input slice", alias == "", "Payload is a sub-slice of parameter "+alias+": the signing body changes when the caller reuses that buffer")
+	}
+	R.Floor("C04.reads.payload-stores", npl, 1)
+
 	// ---- C04.injective: only the last field is variable length
 	inj := len(evs) > 0
 	for i, e := range evs {
